@@ -15,9 +15,56 @@ theorem entryPc_facts (cfg : Cfg) (c : Call) :
     (isRemove c = true → entryPc cfg c ≠ .retp) := by
   rcases cfg with ⟨lk, sh⟩
   cases lk <;> cases sh <;> (cases c with
-    | pushMany us h => cases us <;> simp [entryPc, csEntry, InCS, Wanting, Typed, PushPc, PopPc, RmPc, isPopLike, isRemove, wants]
-    | popMany m t => cases m <;> simp [entryPc, csEntry, InCS, Wanting, Typed, PushPc, PopPc, RmPc, isPopLike, isRemove, wants]
-    | _ => simp [entryPc, csEntry, InCS, Wanting, Typed, PushPc, PopPc, RmPc, isPopLike, isRemove, wants])
+    | pushMany us h => cases us <;> simp [entryPc, bodyPc, csEntry, InCS, Wanting, Typed, PushPc, PopPc, RmPc, isPopLike, isRemove, wants]
+    | popMany m t => cases m <;> simp [entryPc, bodyPc, csEntry, InCS, Wanting, Typed, PushPc, PopPc, RmPc, isPopLike, isRemove, wants]
+    | _ => simp [entryPc, bodyPc, csEntry, InCS, Wanting, Typed, PushPc, PopPc, RmPc, isPopLike, isRemove, wants])
+
+/-- the same for the first program counter of the pool callback -/
+theorem bodyPc_facts (cfg : Cfg) (c : Call) :
+    (InCS (bodyPc cfg c) → cfg.shared = false) ∧
+    bodyPc cfg c ≠ .pubE ∧ bodyPc cfg c ≠ .pub ∧ bodyPc cfg c ≠ .setIn ∧ bodyPc cfg c ≠ .clrIn ∧
+    bodyPc cfg c ≠ .rel ∧ bodyPc cfg c ≠ .wIdle ∧ bodyPc cfg c ≠ .idle ∧
+    Typed (bodyPc cfg c) c ∧
+    (isPopLike c = true → Wanting (bodyPc cfg c) → wants c ≠ 0) ∧
+    (isPopLike c = true → bodyPc cfg c = .retp → wants c = 0) ∧
+    (isRemove c = true → bodyPc cfg c ≠ .retp) := by
+  rcases cfg with ⟨lk, sh⟩
+  cases lk <;> cases sh <;> (cases c with
+    | pushMany us h => cases us <;> simp [bodyPc, csEntry, InCS, Wanting, Typed, PushPc, PopPc, RmPc, isPopLike, isRemove, wants]
+    | popMany m t => cases m <;> simp [bodyPc, csEntry, InCS, Wanting, Typed, PushPc, PopPc, RmPc, isPopLike, isRemove, wants]
+    | _ => simp [bodyPc, csEntry, InCS, Wanting, Typed, PushPc, PopPc, RmPc, isPopLike, isRemove, wants])
+
+/-- hook 23: ABT_pool_push_threads(_ex) invokes the pool's push_many callback -/
+theorem inv_cbPushMany {cfg : Cfg} {s s' : St} {a : Actor} {n : Nat} (h : Inv cfg s)
+    (hs : stepCbPushMany cfg s a n = some s') : Inv cfg s' := by
+  unfold stepCbPushMany at hs
+  split at hs
+  · simp at hs
+  next hg =>
+  simp only [Option.some.injEq] at hs; subst hs
+  have hpc : s.pc a = .pmCb := by simp_all
+  have hidle : s.pc a ≠ .idle := by simp [hpc]
+  obtain ⟨hnp, hnr⟩ := (h.typed a).1 (by simp [hpc, PushPc])
+  have hlag : s.lagF ≠ some a := by
+    intro e; have := h.lagPc a e; simp [hpc] at this
+  obtain ⟨e1, e2, e3, e4, e5, e6, e7, e8, e9, e10, e11, e12⟩ := bodyPc_facts cfg (s.cur a)
+  apply inv_frame h (a := a) (p := bodyPc cfg (s.cur a)) <;> first | rfl | (intro _ _; rfl) | skip
+  case hnidle => exact hidle
+  case c1 => intro hc; exact h.privOwner (e1 hc) a hidle
+  case c2 => intro hc; exact absurd hc e2
+  case c3 => intro hc; exact absurd hc hlag
+  case c4 => intro hc; cases hc with
+    | inl e => exact absurd e e3
+    | inr e => exact absurd e e4
+  case c5 => intro hc; cases hc with
+    | inl e => exact absurd e e2
+    | inr e => exact absurd e e5
+  case c6 => exact e9
+  case c7 => simp [hnp]
+  case c8 => simp [hnp]
+  case c9 => simp [hnp]
+  case c10 => simp [hnr]
+  case c11 => intro hc; exact absurd hc e4
 
 theorem inv_call {cfg : Cfg} {s s' : St} {a : Actor} {c : Call} (h : Inv cfg s)
     (hs : stepCall cfg s a c = some s') : Inv cfg s' := by
